@@ -210,6 +210,33 @@ pub fn record(seed: u64, tier: &str, out: &str) {
             }
         }
     }
+    // ---- nearly axis-parallel lines (normalised small coefficient between 1e-9 and 1e-6, not exactly 0) crossed by an
+    // ordinary line at 45 degrees or more: multiples of 2^-20, magnitude up to 1000, either argument order
+    let s20 = 20u32;
+    let u20 = 1i128 << 20;
+    for k in 0..(if thorough { 4000 } else { 600 }) {
+        let x0 = rng.range_i64(-(900 << 20), 900 << 20) as i128;
+        let dx = 3 + rng.below(2000) as i128; // 2.9e-6 .. 1.9e-3 over a height of 2000
+        let (lo, hi) = (-1000 * u20, 1000 * u20);
+        // ordinary line through (x0 - u, y1) and (x0 + v, y2), slope at most 1 in absolute value
+        let (u, v) = (rng.range_i64(1 << 20, 90 << 20) as i128, rng.range_i64(1 << 20, 90 << 20) as i128);
+        let y1 = rng.range_i64(-(900 << 20), 900 << 20) as i128;
+        let y2 = (y1 + rng.range_i64(-(1 << 20), 1 << 20) as i128 * (u + v) / u20).clamp(-900 * u20, 900 * u20);
+        let (mut a, mut b, mut c, mut d) = ((x0, lo), (x0 + if k % 2 == 0 { dx } else { -dx }, hi), (x0 - u, y1), (x0 + v, y2));
+        if k % 4 >= 2 {
+            // nearly horizontal instead: swap the axes
+            a = (a.1, a.0); b = (b.1, b.0); c = (c.1, c.0); d = (d.1, d.0);
+        }
+        if k % 3 == 0 {
+            ev_ll(&mut t, s20, c, d, a, b);
+        } else {
+            ev_ll(&mut t, s20, a, b, c, d);
+        }
+        if k % 5 == 0 {
+            // the same steep line against a circle it crosses
+            ev_cl(&mut t, s20, (if k % 4 >= 2 { y1 } else { x0 } + rng.range_i64(-(50 << 20), 50 << 20) as i128, if k % 4 >= 2 { x0 } else { y1 }), 200 * u20 + rng.below(1 << 24) as i128, a, b, "steep line");
+        }
+    }
     // ---- constructed tangencies at arbitrary dyadic positions (Pythagorean triples), and near-tangencies
     let m = if thorough { 6_000 } else { 900 };
     for k in 0..m {
